@@ -372,8 +372,168 @@ def run_history(ctx, pair, hist, eq=False):
     return ok, key
 
 
+# ---------------------------------------------------------------- decorated
+# Handlers declared with the decorators on the class (they are part of every
+# instance and must survive deepcopy / clone_traits); tree mutations and copy
+# events; the legacy and the observe method must see the same calls.
+import copy  # noqa: E402
+import threading  # noqa: E402
+
+from traits.api import (HasTraits, Instance, Int, List,  # noqa: E402
+                        observe, on_trait_change)
+from traits.trait_notifiers import set_ui_handler  # noqa: E402
+
+DLOG = {}
+
+
+class DNode(HasTraits):
+    value = Int
+    child = Instance(HasTraits)
+    kids = List(Instance(HasTraits))
+
+    @on_trait_change("kids.value")
+    def _legacy_kids(self, obj, name, old, new):
+        DLOG.setdefault(id(self), {"lk": 0, "ok": 0, "lc": 0, "oc": 0})[
+            "lk"] += 1 if name == "value" else 0
+
+    @observe("kids:items:value")
+    def _observe_kids(self, event):
+        DLOG.setdefault(id(self), {"lk": 0, "ok": 0, "lc": 0, "oc": 0})[
+            "ok"] += 1
+
+    @on_trait_change("child.value")
+    def _legacy_child(self, obj, name, old, new):
+        DLOG.setdefault(id(self), {"lk": 0, "ok": 0, "lc": 0, "oc": 0})[
+            "lc"] += 1 if name == "value" else 0
+
+    @observe("child:value")
+    def _observe_child(self, event):
+        DLOG.setdefault(id(self), {"lk": 0, "ok": 0, "lc": 0, "oc": 0})[
+            "oc"] += 1
+
+
+D_EVENTS = [("kids_append",), ("kids_pop",), ("kids_assign",), ("child_new",),
+            ("child_none",), ("deepcopy",), ("clone",), ("child_kids_append",)]
+
+
+def d_apply(nodes, ev):
+    root = nodes[0]
+    k = ev[0]
+    if k == "kids_append":
+        n = DNode()
+        root.kids.append(n)
+        nodes.append(n)
+    elif k == "kids_pop":
+        if root.kids:
+            root.kids.pop()
+    elif k == "kids_assign":
+        a, b = DNode(), DNode()
+        root.kids = [a, b]
+        nodes += [a, b]
+    elif k == "child_new":
+        n = DNode()
+        root.child = n
+        nodes.append(n)
+    elif k == "child_none":
+        root.child = None
+    elif k == "child_kids_append":
+        if root.child is not None:
+            n = DNode()
+            root.child.kids.append(n)
+            nodes.append(n)
+    elif k == "deepcopy":
+        nodes[:] = copy.deepcopy(nodes)
+    elif k == "clone":
+        # the root is cloned (deep), the history continues on the clone
+        new_root = root.clone_traits(copy="deep")
+        nodes[:] = [new_root] + list(new_root.kids) + \
+            ([new_root.child] if new_root.child is not None else [])
+    return nodes
+
+
+def decorated(ctx, tier):
+    depth = 3 if tier == "quick" else 4
+    import itertools
+    for n in range(0, depth + 1):
+        for hist in itertools.product(D_EVENTS, repeat=n):
+            ctx.case({"decorated": True, "history": [list(e) for e in hist]})
+            ctx.ev()
+            nodes = [DNode()]
+            for ev in hist:
+                d_apply(nodes, ev)
+            root = nodes[0]
+            kids = list(root.__dict__.get("kids", ()))
+            child = root.__dict__.get("child")
+            for node in list(nodes):
+                DLOG.clear()
+                ctx.tr()
+                node.value += 1
+                got = DLOG.get(id(root), {"lk": 0, "ok": 0, "lc": 0, "oc": 0})
+                exp_k = 1 if any(node is x for x in kids) else 0
+                exp_c = 1 if node is child else 0
+                if (got["lk"], got["ok"], got["lc"], got["oc"]) != \
+                        (exp_k, exp_k, exp_c, exp_c):
+                    ctx.violation(
+                        "C16:decorated:%s" % ("copy" if any(
+                            e[0] in ("deepcopy", "clone") for e in hist)
+                            else "plain"),
+                        "decorator-registered handlers on the root: legacy "
+                        "kids.value %d, observe %d (expected %d); legacy "
+                        "child.value %d, observe %d (expected %d)" % (
+                            got["lk"], got["ok"], exp_k, got["lc"],
+                            got["oc"], exp_c),
+                        history=[list(e) for e in hist])
+                    break
+                if exp_k or exp_c:
+                    ctx.outcome("leaf-called")
+            ctx.state(("decorated", hist))
+
+
+UI_Q = []
+
+
+def ui_threaded(ctx):
+    """on_trait_change(..., dispatch='ui') with a queueing UI handler; the
+    list is mutated from a worker thread: re-hooking happens at once, only
+    the user's handler is queued"""
+    set_ui_handler(lambda handler, *a, **k: UI_Q.append((handler, a, k)))
+    for first in ("kids.value", "kids:value"):
+        ctx.case({"ui_threaded": first})
+        ctx.ev()
+        ctx.tr()
+        pool = G.make_pool()
+        root = pool[0]
+        calls = []
+
+        def h(obj, name, old, new):
+            calls.append(name)
+        root.on_trait_change(h, first, dispatch="ui")
+
+        def work():
+            n = type(root)()
+            root.kids.append(n)
+            n.value += 1            # appended, then changed at once
+            root.kids.remove(n)
+            n.value += 1            # removed, then changed
+        t = threading.Thread(target=work)
+        t.start()
+        t.join()
+        while UI_Q:
+            handler, a, k = UI_Q.pop(0)
+            handler(*a, **k)
+        got = calls.count("value")
+        if got != 1:
+            ctx.violation("C16:ui-threaded:%s" % first,
+                          "a child appended and changed from a worker "
+                          "thread, then removed and changed: the ui-"
+                          "dispatched handler got %d 'value' calls, expected "
+                          "1 (%r)" % (got, calls), history=[["ui", first]])
+        else:
+            ctx.outcome("leaf-called")
+
+
 def shards(tier):
-    out = []
+    out = [{"pair": "__decorated__"}, {"pair": "__ui_threaded__"}]
     for pair in PAIRS:
         n = len(menu(pair))
         for i in range(n):
@@ -385,6 +545,14 @@ def shards(tier):
 
 def run_shard(ctx, shard, tier):
     pair = shard["pair"]
+    if pair == "__decorated__":
+        decorated(ctx, tier)
+        ctx.depth_completed = 3
+        return
+    if pair == "__ui_threaded__":
+        ui_threaded(ctx)
+        ctx.depth_completed = 1
+        return
     evs = menu(pair)
     depth = 4 if tier == "quick" else 5
     frontier = [[]]
@@ -418,6 +586,11 @@ def replay(rec):
     from mc.ctx import Ctx
     ctx = Ctx("C16", None, "quick", 0)
     c = rec.get("case") or rec
+    if c.get("decorated") or c.get("ui_threaded"):
+        decorated(ctx, "quick") if c.get("decorated") else ui_threaded(ctx)
+        for v in ctx.violations.values():
+            print("  violation:", v["sig"], v["msg"])
+        return not ctx.violations
     hist = [tuple(e) for e in c["history"]]
     run_history(ctx, c["pair"], hist, eq=c.get("eq", False))
     print("pair", c["pair"], "history", hist)
